@@ -6,6 +6,7 @@ import (
 	"bytes"
 	"crypto/sha256"
 	"fmt"
+	rdm "github.com/storacha/go-ucanto/core/receipt/datamodel"
 	"io"
 	"math/rand"
 	"strings"
@@ -405,19 +406,34 @@ func init() {
 				invNodes = append(invNodes, n)
 				invs = append(invs, inv)
 			}
+			// an earlier invocation that carries the ROOT block of a later one as an attachment (a pipelined follow-up
+			// referring to the task it follows): the later one must still travel with its whole proof chain
+			if len(invNodes) >= 2 && r.Intn(3) == 0 {
+				a := r.Intn(len(invNodes) - 1)
+				b := a + 1 + r.Intn(len(invNodes)-a-1)
+				if err := invNodes[a].d.Attach(invNodes[b].d.Root()); err == nil {
+					invNodes[a].attached = append(invNodes[a].attached, invNodes[b].d.Root())
+				}
+			}
 			nrc := r.Intn(7)
 			var rcpts []receipt.AnyReceipt
 			var rcptBlocks []string
-			type rinfo struct{ ran, root string }
+			type rinfo struct {
+				ran, root string
+				node      *dnode // the invocation embedded as `ran`, when it is
+			}
 			var rinfos []rinfo
 			for k := 0; k < nrc; k++ {
 				var rn ran.Ran
 				var ranLink ipld.Link
+				var ranNode *dnode
 				if len(invs) > 0 && r.Intn(3) != 0 {
-					iv := invs[r.Intn(len(invs))]
+					pick := r.Intn(len(invs))
+					iv := invs[pick]
 					ranLink = iv.Link()
 					if r.Intn(2) == 0 {
 						rn = ran.FromInvocation(iv)
+						ranNode = invNodes[pick]
 					} else {
 						rn = ran.FromLink(iv.Link())
 					}
@@ -437,7 +453,11 @@ func init() {
 					}
 				}
 				rcptBlocks = append(rcptBlocks, "["+strings.Join(bl, "; ")+"]")
-				rinfos = append(rinfos, rinfo{ranLink.String(), rc.Root().Link().String()})
+				rinfos = append(rinfos, rinfo{ranLink.String(), rc.Root().Link().String(), ranNode})
+			}
+			if i%3 == 2 {
+				// a RESPONSE: receipts only — an invocation embedded as `ran` travels with the receipt alone
+				invs, invNodes = nil, nil
 			}
 			msg, err := message.Build(invs, rcpts)
 			if err != nil {
@@ -502,6 +522,25 @@ func init() {
 					direct = append(direct, map[string]any{"message": i, "codec": codec, "what": "block sequence differs after transport"})
 				}
 				br, _ := blockstore.NewBlockReader(blockstore.WithBlocksIterator(dmsg.Blocks()))
+				// a receipt that embeds the invocation it answers carries that invocation's whole proof chain and attachments
+				for _, ri := range rinfos {
+					if ri.node == nil {
+						continue
+					}
+					rl, _ := cid.Decode(ri.root)
+					rcv, err := receipt.NewReceipt[ipld.Node, ipld.Node](cidlink.Link{Cid: rl}, br, rdm.TypeSystem().TypeByName("Receipt"))
+					if err != nil {
+						direct = append(direct, map[string]any{"message": i, "codec": codec, "what": "receipt not readable after transport: " + err.Error()})
+						continue
+					}
+					if rcv.Ran() == nil {
+						direct = append(direct, map[string]any{"message": i, "codec": codec, "what": "receipt's embedded invocation lost after transport"})
+						continue
+					}
+					if why := sameDelegation(ri.node, rcv.Ran(), 0); why != "" {
+						direct = append(direct, map[string]any{"message": i, "codec": codec, "what": "receipt's embedded invocation differs after transport: " + why})
+					}
+				}
 				for k, n := range invNodes {
 					v, err := invocation.NewInvocationView(dmsg.Invocations()[k], br)
 					if err != nil {
